@@ -140,10 +140,20 @@ def c04_sizes(ctx):
     c10_1(ctx)
 
 
-RULES = [c04_1, c04_2, c04_3, c04_sizes]
+def c04_predefined(ctx):
+    """Predefined data blocks take part in the overlap check as lines: each block must become one, at its own address and size."""
+    from rules.shared import cfg_accessors, cfg_data_blocks
+    cfg_accessors(ctx, only=('predefined_data_blocks',))
+    cfg_data_blocks(ctx)
+
+
+RULES = [c04_1, c04_2, c04_3, c04_sizes, c04_predefined]
 
 _E = 'assembler/engine.py'
 MUTANTS = [
+    V('c04-predefined-size-from-value', _E, "            byte_length: int = predefined_memory['size']", "            byte_length: int = predefined_memory.get('length', 1)", 'CFG.2'),
+    V('c04-predefined-only-nonzero', _E, "            predefined_line_obs.append(data_obj)", "            if value != 0:\n                predefined_line_obs.append(data_obj)", 'CFG.2'),
+    V('c04-predefined-wrong-section', 'assembler/model/__init__.py', "            return self._config['predefined']['data']", "            return self._config['predefined'].get('data_blocks', [])", 'CFG.1'),
     V('c04-ge', _E, '(last_line.address + last_line.byte_size) > lobj.address', '(last_line.address + last_line.byte_size) >= lobj.address', 'C04.2'),
     V('c04-minus1', _E, '(last_line.address + last_line.byte_size) > lobj.address', '(last_line.address + last_line.byte_size - 1) > lobj.address', 'C04.2'),
     V('c04-no-sort', _E, '        compilable_line_obs.sort(key=lambda x: x.address)\n', '', 'C04.1'),
